@@ -320,6 +320,63 @@ func init() {
 		l.p("/-- `wpIterator.init` decodes every announced event and parses its field text before it accepts the packet -/")
 		l.p("def wpInitValidates : Bool := %s", leanBool(validates))
 
+		// --- SHOW PARTITIONS: is a negative OFFSET / LIMIT refused before the paging arithmetic? (finding F55) -----------------
+		// structural: in cmdShowPartitions (pkg/backend) or Service.Partitions (pkg/partition), helpers inlined, before the make(…)
+		// of the result there are `if`s with a `< 0` test (or `0 >`) that return a non-nil error — at least two tested operands
+		// (offset and limit), in one condition or two.
+		showGuard := false
+		{
+			negTests := 0
+			sawMake := false
+			scan := func(dir, name string) {
+				pkg, all := c13PkgFuncs(dir)
+				for _, fd := range all {
+					if fd.Name.Name != name {
+						continue
+					}
+					c13Walk(fd.Body, pkg, 2, map[*ast.FuncDecl]bool{fd: true}, func(n ast.Node) {
+						if c13CallName(n) == "make" {
+							sawMake = true
+						}
+						is, ok := n.(*ast.IfStmt)
+						if !ok || sawMake {
+							return
+						}
+						returns := false
+						for _, st := range is.Body.List {
+							if c13ReturnsError(st) {
+								returns = true
+							}
+						}
+						if !returns {
+							return
+						}
+						ast.Inspect(is.Cond, func(m ast.Node) bool {
+							if be, ok := m.(*ast.BinaryExpr); ok {
+								if n0, ok := c13Lit(be.Y); ok && n0 == 0 && be.Op == token.LSS {
+									negTests++
+								}
+								if n0, ok := c13Lit(be.X); ok && n0 == 0 && be.Op == token.GTR {
+									negTests++
+								}
+							}
+							return true
+						})
+					})
+				}
+			}
+			scan("pkg/backend", "cmdShowPartitions")
+			found := sawMake
+			sawMake = false
+			scan("pkg/partition", "Partitions")
+			if !found && !sawMake {
+				problem("neither backend.cmdShowPartitions nor partition.Service.Partitions (with the make of the result page) was found: the fact showPartitionsRejectsNegative cannot be read")
+			}
+			showGuard = negTests >= 2
+		}
+		l.p("/-- `SHOW PARTITIONS` refuses a negative OFFSET or LIMIT with an error before the paging arithmetic of `Service.Partitions` -/")
+		l.p("def showPartitionsRejectsNegative : Bool := %s", leanBool(showGuard))
+
 		// --- pkg/lql: a nesting guard in front of the recursive-descent parser (finding F25) --------------------------
 		// fact: some function of pkg/lql compares a depth counter with the constant cMaxNestingDepth and returns an error, and every
 		// function that hands a text to participle (`….ParseString(text, …)`) calls it on that text first.
